@@ -99,7 +99,7 @@ def _inline_policy(p):
     el = p.cls("indi.device.properties.instance.elements.Element")
 
     def pol(fi, node):
-        if fi.qualname == "indi.message.checks.dictionary":
+        if fi.module.name == "indi.message.checks":
             return True
         if fi.cls in (sw, el) and fi.name in ("check_value", "check_value_type", "value", "bool_value", "name"):
             return True
